@@ -1396,3 +1396,19 @@ package stackage
 //@ ensures[C16:Marshal.appended] s0 != nil && ma == nil && ulen(s0) == L + 1 ==> isStackLike(slot(s0, L + 1)) || isCondLike(slot(s0, L + 1))
 //@ ensures[C14:Marshal.policy] s0 != nil && len(in) > 0 && ma != nil ==> err == dyn_Val_0(ma, in[0], c0) && F_Stack_stack[r] == s0 && hdr(s0) == old(hdr(s0))
 //@ modifies F_Stack_stack[r], Cell_stack[F_Stack_stack[r]], Mem_Val[arr(hdr(F_Stack_stack[r]))], F_nodeConfig_ldr[cfgOf(F_Stack_stack[r])], F_nodeConfig_err[cfgOf(F_Stack_stack[r])], fresh, G_calls_len, G_calls_fn, G_calls_arg
+
+// ---------------------------------------------------------------------
+// C10: lock discipline and lock invariant (mode lock: after Lock() only the lock invariant is known)
+
+//@ func (*stack).pop @lock
+//@ tags C10
+//@ safety C10
+//@ requires wf(r) && F_nodeConfig_mtx[cfgOf(r)] != nil
+//@ let cf := cfgOf(r)
+//@ let fifo := F_nodeConfig_ord[cf]
+//@ ensures[C10:pop.wf] wf(r) && cfgOf(r) == cf
+//@ ensures[C10:pop.lifo] !fifo && acq(ulen(r)) > 0 ==> slice == acq(slot(r, ulen(r))) && ulen(r) == acq(ulen(r)) - 1 && (forall k :: 0 <= k && k <= ulen(r) ==> slot(r, k) == acq(slot(r, k)))
+//@ ensures[C10:pop.fifo] fifo && acq(ulen(r)) > 0 ==> slice == acq(slot(r, 1)) && ulen(r) == acq(ulen(r)) - 1 && (forall k :: 1 <= k && k <= ulen(r) ==> slot(r, k) == acq(slot(r, k + 1)))
+//@ ensures[C10:pop.empty] acq(ulen(r)) == 0 ==> slice == nil && !ok && hdr(r) == acq(hdr(r))
+//@ ensures[C10:pop.notcfg] !is_v_cfgp(slice)
+//@ modifies Cell_stack[r], Mem_Val, F_nodeConfig_ldr[cfgOf(r)]
